@@ -2,15 +2,9 @@
    literals incl. case-insensitive ones, character classes, the \Z helper) by concatenation.
    From a given offset they have at most one result, and neither that result's offset nor its
    existence depends on the capture vector, the fuel or the group offset; they capture nothing. *)
-From FR Require Import Base Utf8 Ast Analyze Sem ExprLemmas SemSound.
+From FR Require Import Base Utf8 Ast Analyze Sem ExprLemmas SemSound Scope.
 From Coq Require Import Lia NArith.
 
-Fixpoint det (e : expr) : bool :=
-  match e with
-  | Empty | Any _ | Assertion _ | Literal _ _ | Delegate _ _ _ _ => true
-  | Concat es => (fix go (l : list expr) : bool := match l with [] => true | x :: r => det x && go r end) es
-  | _ => false
-  end.
 Lemma det_concat es : det (Concat es) = forallb det es.
 Proof. induction es as [|x r IH]; [reflexivity|]. cbn [forallb]. rewrite <- IH. reflexivity. Qed.
 
